@@ -215,7 +215,14 @@ inline long long argll(int argc, char** argv, const char* name, long long def)
 inline void std_init(int argc, char** argv)
 {
   const char* o = arg(argc, argv, "--out");
-  if(o) { FILE* f = fopen(o, "w"); if(!f) { perror("out"); _exit(2); } outf() = f; }
+  if(o)
+  { // O_APPEND: forked explorer workers append whole lines to the same file
+    int fd = open(o, O_WRONLY | O_CREAT | O_TRUNC | O_APPEND, 0644);
+    FILE* f = fd >= 0 ? fdopen(fd, "a") : 0;
+    if(!f) { perror("out"); _exit(2); }
+    setvbuf(f, 0, _IOLBF, 1 << 15);
+    outf() = f;
+  }
   const char* c = arg(argc, argv, "--crumb");
   if(c) crumb_open(c);
   watchdog_install();
